@@ -480,7 +480,9 @@ func (x *Exec) doTx(op *Op) {
 	for i := 1; i < len(x.hosts); i++ {
 		rr := x.hosts[i].RunTx(msgs, hash, tx.MsgIndexBase, tx.Gas, nil)
 		x.hosts[i].TakeCallbacks()
-		if rr.Code != res.Code || errHead(rr.Err) != errHead(res.Err) {
+		// only the result code is compared: error texts are not consensus state (ResponseDeliverTx.Log is not hashed), and
+		// the JSON-schema validator reports "the first" of several errors in map order
+		if rr.Code != res.Code {
 			x.viol("C20", "replica_divergence", fmt.Sprintf("tx result differs on replica %d: %s/%s vs %s/%s", i, rr.Code, errHead(rr.Err), res.Code, errHead(res.Err)), nil)
 		}
 	}
